@@ -188,6 +188,7 @@ class RelayWorld:
         self.final["dump"] = env.dump()
         self.final["full"] = env.dump(full=True)
         self.final["registry"] = self.registry()
+        self.final["alive"] = {c.idx: (not c.disconnected and c.closed is None) for c in self.clients}
         self.final["script_left"] = {c.idx: len(c.script) - c.pos for c in self.clients}
         self.final["stuck_in_handler"] = [c.idx for c in self.clients
                                           if not c.task.done() and c.recv_fut is None]
